@@ -1,7 +1,7 @@
 CONSTANTS WeekLen = 2016  Accept = 432  RotTrigger = 3200  CatchUpBound = 4000  CapPct = 135
  Defects = {}
- Strict = {"RecvReport", "UDPPairing"}
- InvSel = {"SlotIsFunctionOfSet", "IndexInBounds", "BanSticky"}
+ Strict = {"RecvReport", "UDPPairing", "Start", "Close"}
+ InvSel = {"SlotIsFunctionOfSet", "IndexInBounds", "BanSticky", "RestartEquiv"}
  DiagLine = @DiagLine@
 SPECIFICATION TSpec
 POSTCONDITION Accepted
